@@ -314,15 +314,29 @@ func specJSON(s *spec.Spec) string {
 	return string(b)
 }
 
-// hasShorthandSelfRef: the recorded known finding - an object whose only property refers back to the object.
+// hasShorthandSelfRef: the recorded known finding - an object whose only property is a reference that leads back to
+// the object, directly or through other objects whose only property is a reference.
 func hasShorthandSelfRef(s *spec.Spec) bool {
-	found := false
+	next := map[string]string{}
 	spec.Walk(s, func(n *spec.Spec) {
-		if n.Kind == spec.KObject && len(n.Props) == 1 && n.Props[0].Type.Kind == spec.KRef && n.Props[0].Type.RefID == n.ID {
-			found = true
+		if n.Kind == spec.KObject && len(n.Props) == 1 && n.Props[0].Type.Kind == spec.KRef && n.Props[0].Type.Namespace == "" {
+			next[n.ID] = n.Props[0].Type.RefID
 		}
 	})
-	return found
+	for start := range next {
+		at := start
+		for i := 0; i <= len(next); i++ {
+			n, ok := next[at]
+			if !ok {
+				break
+			}
+			if n == start {
+				return true
+			}
+			at = n
+		}
+	}
+	return false
 }
 
 // judge runs the case in the worker. Returns (message, outcome).
